@@ -102,6 +102,14 @@ func TestVerif_Passthrough(t *testing.T) {
 			b.Emit(name, kv...)
 		}
 		body := fmt.Sprintf(`{"model":"m1","max_tokens":32,"system":"be brief","stream":%v,"messages":[{"role":"user","content":"hello p%d"}]}`, sc.Stream, sn)
+		// white space around the JSON text is part of the body (a file sent with curl --data-binary ends in a
+		// newline): "byte-identical" includes it
+		switch sn % 3 {
+		case 1:
+			body += "\n"
+		case 2:
+			body = " \r\n" + body + " \n\n"
+		}
 		sum := sha256.Sum256([]byte(body))
 		clientSHA := hex.EncodeToString(sum[:])
 		for _, be := range stk.backends {
